@@ -23,6 +23,7 @@ import os
 import random
 import re
 import shutil
+import time
 
 from .. import tlc
 from ..core import MachineryError, git_available
@@ -44,11 +45,11 @@ def violated(res):
 # ------------------------------------------------------------------------------- workers (forked)
 def _walk_worker(args):
     from ..c16_replay import Walker
-    kind, wid, nw, max_len, seed = args
+    kind, wid, nw, max_len, seed, deadline = args
     g, objs, scratch, use_git = _G["graph"], _G["objs"], _G["scratch"], _G["git"]
     sc = os.path.join(scratch, f"w-{kind}-{wid}")
     os.makedirs(sc, exist_ok=True)
-    w = Walker(g, kind, objs, sc, use_git, max_len, random.Random(seed * 1000 + wid))
+    w = Walker(g, kind, objs, sc, use_git, max_len, random.Random(seed * 1000 + wid), deadline)
     targets = {(s, li) for (s, li) in w.reachable_targets() if s % nw == wid}
     rem = w.cover(targets)
     shutil.rmtree(sc, ignore_errors=True)
@@ -152,10 +153,11 @@ def phase_replay(ctx, dot, nproc):
     _G["graph"] = g
     ctx.log(f"state graph: {len(g.loose)} states, {g.n_edges} transitions, {len(g.labels)} distinct labels")
     max_len = ctx.pick(40, 60)
-    jobs = [("disk", w, nproc, max_len, ctx.seed) for w in range(nproc)]
-    nrt = max(1, nproc // 2)
-    jobs += [("reftable", w, nrt, max_len, ctx.seed) for w in range(nrt)]
-    jobs += [("dict", 0, 1, max_len, ctx.seed)]
+    deadline = time.time() + ctx.pick(45, 480)       # the walk normally ends long before; a loaded machine must not blow the tier's budget
+    nrt = max(1, nproc // 3)
+    jobs = [("dict", 0, 1, max_len, ctx.seed, deadline)]
+    jobs += [("reftable", w, nrt, max_len, ctx.seed, deadline) for w in range(nrt)]
+    jobs += [("disk", w, nproc, max_len, ctx.seed, deadline) for w in range(nproc)]
     with mp.get_context("fork").Pool(nproc) as pool:
         results = pool.map(_walk_worker, jobs, chunksize=1)
     summary = {}
@@ -180,7 +182,8 @@ def phase_replay(ctx, dot, nproc):
                 f"{s['steps']} calls in {s['behaviours']} behaviours, {s['validated']} conform, "
                 f"{s['failed_clauses']} failed clauses, git listings {s['git_calls']}")
         if s["unreached"]:
-            ctx.assumptions.append(f"graph replay {kind}: {s['unreached']} transitions not reached from a matching real state")
+            ctx.assumptions.append(f"graph replay {kind}: {s['unreached']} of {s['targets']} transitions not executed "
+                                   f"(time budget of the walk reached, or no matching real state)")
     ctx.cov["graph_replay"] = {"states": len(g.loose), "transitions": g.n_edges, "by_backend": summary}
     return all(s["unreached"] == 0 for s in summary.values())
 
